@@ -12,9 +12,10 @@ from mirsym.exec import Exec, State, Event
 from mirsym.values import Struct, Enum, Ref, Opaque, Dyn, IteDyn, UNIT, EngineError, ite
 from . import common
 from .common import Prover, Check, mval
-from .daemon_extract import load_dlib_program, time_env, time_consts, f64_hex
+from .daemon_extract import load_dlib_program, time_env, time_consts, f64_hex, TRACKING_FIELDS
 
 CLS = {0: 'Unknown', 1: 'Synchronized', 2: 'FreeRunning'}
+REF_BASE = 10 ** 18        # reference times of the reports: REF_BASE - age, age in [0, 10 ms] (always fresh; the class is the oracle's)
 
 
 class UpdaterModel:
@@ -29,6 +30,9 @@ class UpdaterModel:
             raise EngineError('ShmUpdater fields changed: %r' % (names,))
         self.idx = {n: names.index(n) for n in names}
         self.extra = [n for n in names if n not in want]
+        if prog.struct_fields.get('Tracking') != TRACKING_FIELDS:
+            raise EngineError('chrony_candm::reply::Tracking has unexpected fields')
+        self.cur = None
         self.f_new = prog.find1('new', self_ty='ShmUpdater')
         self.f_update = prog.find1('process_clock_update', self_ty='ShmUpdater')
         self.f_missing = prog.find1('process_missing_clock_update', self_ty='ShmUpdater')
@@ -36,11 +40,20 @@ class UpdaterModel:
         self.dom_vars = []
         self.asof_vars = []
 
-    def h_extract(self, ex, st, callee, args, fn):
+    def new_report(self):
+        """a new chrony report: its (bound, class) as extract_bound_from_tracking would compute them - a function of the
+        report, fixed before the code runs, whether or not the code asks for it - and its reference time"""
         self.n += 1
-        b = z3.Int('ext_bound_%d' % self.n); c = z3.Int('ext_class_%d' % self.n)
-        ex.side.append(z3.And(c >= 0, c <= 2, b >= -2 ** 63, b < 2 ** 63))
+        b = z3.Int('ext_bound_%d' % self.n); c = z3.Int('ext_class_%d' % self.n); ref = z3.Int('ref_ns_%d' % self.n)
+        self.ex.side.append(z3.And(c >= 0, c <= 2, b >= -2 ** 63, b < 2 ** 63, ref >= REF_BASE - 10 ** 7, ref <= REF_BASE))
         self.dom_vars.append(b)
+        self.cur = (b, c, ref)
+        f = {n: Opaque('tracking.' + n) for n in TRACKING_FIELDS}
+        f['ref_time'] = Struct([ref])
+        return Struct([f[n] for n in TRACKING_FIELDS]), (b, c), ref
+
+    def h_extract(self, ex, st, callee, args, fn):
+        b, c, ref = self.cur
         st.trace = st.trace + (Event('extract', (args[0],), (b, c)),)
         return Struct([b, Enum(c, {})])
 
@@ -83,9 +96,11 @@ class UpdaterModel:
                 f[self.idx[n]] = z3.Int('st_%s%s' % (n, tag))
         return Struct(f), dict(sel=sel, bound=bound, as_s=as_s, as_n=as_n)
 
-    def step_report(self, st, phc, asof):
+    def step_report(self, st, phc, asof, tracking=None):
         """process_clock_update on the updater stored at (0,'u'); returns outcomes"""
-        return self.ex.run(self.f_update, [Ref(0, 'u'), Opaque('tracking'), phc, asof], st)
+        if tracking is None:
+            tracking, _, _ = self.new_report()
+        return self.ex.run(self.f_update, [Ref(0, 'u'), tracking, phc, asof], st)
 
     def step_missing(self, st, grace):
         return self.ex.run(self.f_missing, [Ref(0, 'u'), grace], st)
@@ -111,8 +126,9 @@ def run_history(um, H, drift):
                 if kind == 0:
                     phc = z3.Int('phc_%d' % i); as_s, as_n = z3.Int('asof_s_%d' % i), z3.Int('asof_n_%d' % i)
                     um.dom_vars.append(phc); um.asof_vars += [as_s, as_n]
-                    outs = um.step_report(s2, phc, Struct([as_s, as_n]))
-                    info = dict(kind=0, phc=phc, as_s=as_s, as_n=as_n)
+                    trk, ext, ref = um.new_report()
+                    outs = um.step_report(s2, phc, Struct([as_s, as_n]), trk)
+                    info = dict(kind=0, phc=phc, as_s=as_s, as_n=as_n, ext=ext, ref=ref)
                 else:
                     outs = um.step_missing(s2, z3.BoolVal(kind == 1))
                     info = dict(kind=kind)
@@ -123,7 +139,7 @@ def run_history(um, H, drift):
                     exts = [e for e in o.state.trace if e.kind == 'extract']
                     d = dict(info); d['npub'] = len(pubs); d['rec'] = pubs[-1].ret if pubs else None
                     if kind == 0:
-                        d['ext'] = exts[-1].ret if exts else None
+                        d['classified'] = len(exts)
                     nxt.append((o.state, hist + [d]))
         states = nxt
     return states
@@ -171,7 +187,8 @@ def native_history(rp, m, hist, drift_val):
             # a dispersion that yields exactly b ns is not always representable: use whole milliseconds and move the rest into the PHC term
             ms = min(b // 10 ** 6, 10 ** 6)
             disp = ms / 1000.0
-            toks.append('R,%s,%s,%s,%s,%d,%d,%d,%d,%d' % (f64_hex(0.0), f64_hex(0.0), f64_hex(disp), f64_hex(16.0), leap, 10 ** 6, 0, mval(m, d['as_s']), mval(m, d['as_n'])))
+            age = REF_BASE - (mval(m, d['ref']) if mval(m, d['ref']) is not None else REF_BASE - 10 ** 6)
+            toks.append('R,%s,%s,%s,%s,%d,%d,%d,%d,%d' % (f64_hex(0.0), f64_hex(0.0), f64_hex(disp), f64_hex(16.0), leap, age, 0, mval(m, d['as_s']), mval(m, d['as_n'])))
             expect.append(('R', c, ms, mval(m, d['phc']), b, mval(m, d['as_s']), mval(m, d['as_n'])))
         elif d['kind'] == 1:
             toks.append('G'); expect.append(('G',))
@@ -225,6 +242,118 @@ def oracle_history(out, expect, drift, prop):
             if dr != drift:
                 bad.append('C08: step %d: drift %d published, configured %d' % (i + 1, dr, drift))
     return bad
+
+
+def report_status_part(ck, prog, seed, tier):
+    """C10, second half: the class extract_bound_from_tracking assigns to a report is the status of the record published after
+    that report - from a fresh daemon and after every short history (each FSM state, each value of private updater state a
+    history can produce).  Histories of length <= H ending in a report."""
+    um = UpdaterModel(prog)
+    drift = z3.Int('drift')
+    H = 3 if tier == 'quick' else 4
+    pr = Prover(seed)
+    rp = common.Replay('debug')
+    stats = [0, 0]
+    nside = 0
+    nh = 0
+
+    def confirm_for(hist):
+        def confirm(m):
+            stats[0] += 1
+            dv = mval(m, drift)
+            out, expect = native_history(rp, m, hist, dv)
+            bad = [b for b in oracle_history(out, expect, dv, 'C08') if b.startswith('C08') and ': status ' in b]
+            if bad:
+                stats[1] += 1
+                ck.violation('status-after-report', '%s  [history %s, real ShmUpdater]' % ('; '.join(bad[:2]).replace('C08: ', ''), ' '.join(e[0] + (CLS[e[1]][0] if e[0] == 'R' else '') for e in expect)),
+                             {'cmd': 'history', 'native': out, 'steps': [str(e) for e in expect]})
+                return bad[0]
+            return None
+        return confirm
+    for h in range(1, H + 1):
+        hists = run_history(um, h, drift)
+        pr.add(um.ex.side[nside:]); nside = len(um.ex.side)
+        for st, hist in hists:
+            last = hist[-1]
+            if last['kind'] != 0 or last['rec'] is None:
+                continue
+            nh += 1
+            label = 'history[%s]' % ''.join('RGN'[d['kind']] for d in hist)
+            pcd = z3.And(st.pcond(), *(hist_domain(hist) + [drift >= 0, drift < 2 ** 32]))
+            stt = rec_fields(last['rec'])[7]
+            sb, ss, sn, cls, seen = spec_after(hist, drift)
+            pr.prove_cegar(label + '/the status published after the report is the class of that report (Unknown until a first synchronised report)', pcd,
+                           stt == z3.If(seen, cls, z3.IntVal(0)), confirm_for(hist), lambda m: [])
+    rp.close()
+    ck.absorb(pr, 'updater: ')
+    ck.cov['report_status_histories'] = nh
+    ck.cov['counterexamples_replayed'] = ck.cov.get('counterexamples_replayed', 0) + stats[0]
+    ck.cov['counterexamples_confirmed'] = ck.cov.get('counterexamples_confirmed', 0) + stats[1]
+    return H
+
+
+def first_report_composed(ck, prog, seed):
+    """C09 with the real classifier in the loop: a fresh updater processes its first report through the REAL
+    extract_bound_from_tracking; a status other than Unknown is published only if the report is synchronised and fresh by the
+    documented rules (the C10 reading: leap 0..2, reference time not in the future and not older than max(0, 8 x interval))."""
+    from .daemon_extract import TrackingModel, native_extract, NS
+    from fractions import Fraction
+    tm = TrackingModel(prog, tag='_fr')
+    pubs_seen = []
+
+    def h_publish(ex, st, callee, args, fn):
+        rec = ex.deref(st, args[1])
+        st.trace = st.trace + (Event('publish', (), rec),)
+        return UNIT
+    ex = Exec(prog, env=time_env(tm.now_ns) + [(r'^<W as ShmWrite>::write$', h_publish)])
+    ex.const_hooks = time_consts()
+    f_new = prog.find1('new', self_ty='ShmUpdater'); f_update = prog.find1('process_clock_update', self_ty='ShmUpdater')
+    drift = z3.Int('drift_fr')
+    outs0 = ex.run(f_new, [Opaque('writer'), drift], State())
+    if len(outs0) != 1:
+        raise EngineError('ShmUpdater::new has %d paths' % len(outs0))
+    st = State(); st.mem[(0, 'u')] = outs0[0].value
+    phc = z3.Int('phc_fr'); as_s, as_n = z3.Int('asof_s_fr'), z3.Int('asof_n_fr')
+    outs = [o for o in ex.run(f_update, [Ref(0, 'u'), tm.value, phc, Struct([as_s, as_n])], st) if o.kind == 'return']
+    pr = Prover(seed); pr.add(ex.side); pr.add(tm.domain(neg_iv=True))
+    pr.add(drift >= 0, drift < 2 ** 32, phc >= 0, phc < 2 ** 40, as_s >= 0, as_s < 2 ** 40, as_n >= 0, as_n < NS)
+    age = tm.now_ns - tm.ref_ns
+    thr = z3.If(tm.iv < 0, z3.RealVal(0), 8 * tm.iv)
+    truly = z3.And(tm.leap <= 2, tm.now_ns >= tm.ref_ns, z3.ToReal(age) <= thr * NS + 1)
+    rp = common.Replay('debug')
+    stats = [0, 0]
+
+    def confirm(m):
+        stats[0] += 1
+        iv = mval(m, tm.iv); leap = mval(m, tm.leap); a = mval(m, tm.now_ns) - mval(m, tm.ref_ns)
+        if abs(iv) > 2 ** 31 or a > 2 ** 45 or a < -10 ** 12:
+            return None
+        nat = native_extract(rp, 0.0, 0.0, 0.0, iv, leap, a)
+        if 'status' not in nat:
+            return None
+        out = rp.ask('history 1000 R,%s,%s,%s,%s,%d,%d,0,7,7' % (f64_hex(0.0), f64_hex(0.0), f64_hex(0.0), f64_hex(float(iv)), leap, a))
+        if not out.startswith('ok') or len(out.split()) < 2:
+            return None
+        status = int(out.split()[1].split(':')[-1])
+        fresh = leap <= 2 and nat['age_ns'] >= 0 and Fraction(nat['age_ns']) <= max(0, 8 * nat['iv']) * NS + 1
+        if status != 0 and not fresh:
+            stats[1] += 1
+            ck.violation('status-before-first-measurement', 'a fresh daemon whose first report has leap=%d, update interval=%s s and a reference time %.9f s old publishes status %s: that report is not synchronised by the documented rules, no measurement exists yet'
+                         % (leap, float(nat['iv']), nat['age_ns'] / 1e9, CLS.get(status, status)), {'cmd': 'history', 'native': out})
+            return 'first-report'
+        return None
+    k1, k2 = z3.Int('hint_fr1'), z3.Int('hint_fr2')
+    hints = [[tm.iv * 16 == z3.ToReal(k1), tm.iv <= 4096, tm.iv >= -4096, age == k2 * 1000000, k2 >= 0, k2 < 10 ** 9]]
+    for i, o in enumerate(outs):
+        pubs = [e for e in o.state.trace if e.kind == 'publish']
+        if not pubs:
+            continue
+        stt = rec_fields(pubs[-1].ret)[7]
+        pr.prove_cegar('first report through the real classifier, path %d: a status other than Unknown only for a report that is synchronised and fresh' % i, o.state.pcond(),
+                       z3.Implies(stt != 0, truly), confirm, lambda m: [], hints=hints)
+    rp.close()
+    ck.absorb(pr, 'composed: ')
+    ck.cov['first_report_composed'] = {'paths': len(outs), 'counterexamples_replayed': stats[0], 'confirmed': stats[1]}
 
 
 def run_check(prop, tier, seed):
@@ -305,7 +434,8 @@ def run_check(prop, tier, seed):
             st = State(); st.mem[(0, 'u')] = u
             if kind == 0:
                 phc = z3.Int('i_phc'); as_s, as_n = z3.Int('i_asof_s'), z3.Int('i_asof_n')
-                outs = um2.step_report(st, phc, Struct([as_s, as_n]))
+                trk2, ext2, ref2 = um2.new_report()
+                outs = um2.step_report(st, phc, Struct([as_s, as_n]), trk2)
             else:
                 outs = um2.step_missing(st, z3.BoolVal(kind == 1))
             for o in outs:
@@ -314,7 +444,7 @@ def run_check(prop, tier, seed):
                 label = 'inductive step %s' % 'RGN'[kind]
                 dom = [sv['bound'] >= 0, sv['bound'] < 2 ** 62, sv['as_s'] >= 0, sv['as_s'] < 2 ** 40, sv['as_n'] >= 0, sv['as_n'] < 10 ** 9] + drift_dom
                 if kind == 0:
-                    eb, ec = [e for e in o.state.trace if e.kind == 'extract'][-1].ret
+                    eb, ec = ext2
                     dom += [eb >= 0, eb < 2 ** 61, phc >= 0, phc < 2 ** 61, as_s >= 0, as_s < 2 ** 40, as_n >= 0, as_n < 10 ** 9]
                     cls = ec
                     nb = z3.If(ec == 1, eb + phc, sv['bound']); ns_ = z3.If(ec == 1, as_s, sv['as_s']); nn = z3.If(ec == 1, as_n, sv['as_n'])
@@ -343,6 +473,11 @@ def run_check(prop, tier, seed):
     # overflow / panic obligations of the updater code in the stated domain
     ck.absorb(pr)
     rp.close(); rp2.close()
+    if prop == 'C09':
+        try:
+            first_report_composed(ck, prog, seed)
+        except EngineError as e:
+            ck.inconclusive.append('first report through the real classifier: %s' % e)
     ck.cov['functions_encoded'] = sorted({n.split('>::')[-1] if '>::' in n else n for n in um.ex.inlined})
     ck.cov['mir_dump_s'] = round(mir_wall, 1)
     ck.cov['counterexamples_replayed'], ck.cov['counterexamples_confirmed'] = stats
